@@ -119,25 +119,26 @@ package db
 
 //@ func (*kv).get(kv, name) (sv, err)
 //@   requires wf(kv)
-//@   ensures [C02 get.absent] !has(kv.secrets, name) ==> (sv == nil && err != nil && errIs(err, ErrNotFound))
+//@   ensures [C02 get.absent] !has(kv.secrets, name) ==> (sv == nil && err == ErrNotFound)
 //@   ensures [C02,C09,C18 get.present] has(kv.secrets, name) ==> (err == nil && sv != nil && fresh(sv) && allocated(sv) && sv.Version == kv.secrets[name].ActiveVersion &&
 //@        bytes(sv.Value) == kv.secrets[name].Versions[kv.secrets[name].ActiveVersion] && (fresh(sv.Value) || len(sv.Value) == 0))
 
 //@ func (*kv).getVersion(kv, name, version) (sv, err)
 //@   requires wf(kv)
-//@   ensures [C02 getVersion.absent] !hasVersion(kv, name, version) ==> (sv == nil && err != nil && errIs(err, ErrNotFound))
+//@   ensures [C02 getVersion.absent] !hasVersion(kv, name, version) ==> (sv == nil && err == ErrNotFound)
 //@   ensures [C02,C18 getVersion.present] hasVersion(kv, name, version) ==> (err == nil && sv != nil && fresh(sv) && allocated(sv) && sv.Version == version &&
 //@        bytes(sv.Value) == kv.secrets[name].Versions[version] && (fresh(sv.Value) || len(sv.Value) == 0))
 
 //@ func (*kv).info(kv, name) (info, err)
 //@   requires wf(kv)
-//@   ensures [C02 info.absent] !has(kv.secrets, name) ==> (info == nil && err != nil && errIs(err, ErrNotFound))
+//@   ensures [C02 info.absent] !has(kv.secrets, name) ==> (info == nil && err == ErrNotFound)
 //@   ensures [C01,C02 info.present] has(kv.secrets, name) ==> (err == nil && info != nil && fresh(info) && allocated(info) && info.Name == name && info.ActiveVersion == kv.secrets[name].ActiveVersion)
 //@   ensures [C01,C02 info.versions-sound] has(kv.secrets, name) ==> (forall j int :: (0 <= j && j < len(info.Versions)) ==> has(kv.secrets[name].Versions, info.Versions[j]))
 //@   ensures [C01,C02 info.versions-complete] has(kv.secrets, name) ==> (forall v api.SecretVersion :: has(kv.secrets[name].Versions, v) ==> (exists j int :: 0 <= j && j < len(info.Versions) && info.Versions[j] == v))
 //@   loop 0
 //@     invariant [sound] forall j int :: (0 <= j && j < len(info.Versions)) ==> visited(info.Versions[j])
 //@     invariant [complete] forall v api.SecretVersion :: visited(v) ==> (exists j int :: 0 <= j && j < len(info.Versions) && info.Versions[j] == v)
+//@     invariant [visited-in-dom] forall v api.SecretVersion :: visited(v) ==> has(kv.secrets[name].Versions, v)
 //@     invariant [fields] info.Name == name && info.ActiveVersion == kv.secrets[name].ActiveVersion
 
 //@ func (*kv).put(kv, name, value) (ver, err)
@@ -195,6 +196,164 @@ package db
 //@   ensures [C03,C04 deleteSecret.sync] sync(kv)
 //@   ensures [C02,C04 deleteSecret.fail-nochange] err != nil ==> (viewUnchanged(kv) && disk == old(disk) && kv.gen == old(kv.gen))
 //@   ensures [C02 deleteSecret.others] othersUnchanged(kv, name)
-//@   ensures [C02,C08 deleteSecret.absent-ok] !old(has(kv.secrets, name)) ==> (err == nil && viewUnchanged(kv) && disk == old(disk))
+//@   ensures [C02,C08 deleteSecret.absent-ok] !old(has(kv.secrets, name)) ==> (err == nil && viewUnchanged(kv) && disk == old(disk) && kv.gen == old(kv.gen))
 //@   ensures [C02 deleteSecret.ok] err == nil ==> !has(kv.secrets, name)
 //@   ensures [C05 deleteSecret.kek-unused] kekUses == old(kekUses)
+
+// ---- DB: access control, audit trail, locking -----------------------------------------
+
+//@ fn evC(c Caller, action string, secret string, version api.SecretVersion, authorized bool) Event {
+//@      auditEv(c.Principal.Hostname, c.Principal.IP, c.Principal.User, seq(c.Principal.Tags), action, secret, version, authorized) }
+//@ pred dbInv(db *DB) { db != nil && allocated(db) && db.kv != nil && allocated(db.kv) && inv(db.kv) && db.kv.dekCipher != nil &&
+//@      db.auditLog != nil && db.auditLog.enc != nil && !db.mu }
+// the state a DB method may not touch without a grant: the view and the file system
+//@ pred noEffect(db *DB) { viewUnchanged(db.kv) && disk == old(disk) && db.kv.gen == old(db.kv.gen) }
+//@ pred counterRoom(db *DB, name string) { has(db.kv.secrets, name) ==> db.kv.secrets[name].LatestVersion < 4294967295 }
+
+//@ func (*DB).checkAndLog(db, caller, action, secret, secretVersion) (err)
+//@   requires db != nil && db.auditLog != nil && db.auditLog.enc != nil
+//@   ensures [C01,C06 cal.ok-iff] err == nil ==> (allows(caller.Permissions, action, secret) && auditLog == snoc(old(auditLog), evC(caller, str(action), secret, secretVersion, true)))
+//@   ensures [C01 cal.denied] !allows(caller.Permissions, action, secret) ==> (err != nil && errIs(err, ErrAccessDenied))
+//@   ensures [C01,C06 cal.denied-exact] (!allows(caller.Permissions, action, secret) && auditLog != old(auditLog)) ==>
+//@        auditLog == snoc(old(auditLog), evC(caller, str(action), secret, secretVersion, false))
+//@   ensures [C01,C09 cal.errclass-denied] !allows(caller.Permissions, action, secret) ==> (!errIs(err, ErrNotFound) && !errIs(err, api.ErrValueNotChanged))
+//@   ensures [C06 cal.trail] auditLog == old(auditLog) || auditLog == snoc(old(auditLog), evC(caller, str(action), secret, secretVersion, allows(caller.Permissions, action, secret)))
+//@   ensures [C08 cal.errclass] (allows(caller.Permissions, action, secret) && err != nil) ==> (sinkErr(unwrap1(err)) && !errIs(err, ErrNotFound) && !errIs(err, ErrAccessDenied) && !errIs(err, api.ErrValueNotChanged))
+
+//@ func (*DB).Path(db) (r)
+//@   requires dbInv(db)
+//@   ensures [C14 path.inv] dbInv(db) && r == db.kv.path
+//@   at call filePath: assert [C14 path.locked] db.mu
+//@ func (*DB).WriteGen(db) (r)
+//@   requires dbInv(db)
+//@   ensures [C14,C17 writegen.inv] dbInv(db) && r == db.kv.gen
+//@   at call writeGen: assert [C14 writegen.locked] db.mu
+
+//@ func (*DB).Info(db, caller, name) (info, err)
+//@   requires dbInv(db)
+//@   ensures [C02,C03,C14 info.inv] dbInv(db)
+//@   ensures [C01,C02 info.noeffect] noEffect(db)
+//@   ensures [C01 info.deny] !allows(caller.Permissions, "info", name) ==> (info == nil && errIs(err, ErrAccessDenied))
+//@   ensures [C01,C06 info.deny-exact] (!allows(caller.Permissions, "info", name) && auditLog != old(auditLog)) ==> auditLog == snoc(old(auditLog), evC(caller, "info", name, 0, false))
+//@   ensures [C06 info.logged] info != nil ==> auditLog == snoc(old(auditLog), evC(caller, "info", name, 0, true))
+//@   ensures [C06 info.trail] auditLog == old(auditLog) || auditLog == snoc(old(auditLog), evC(caller, "info", name, 0, allows(caller.Permissions, "info", name)))
+//@   ensures [C02 info.model] err == nil ==> (info != nil && has(db.kv.secrets, name) && info.Name == name && info.ActiveVersion == db.kv.secrets[name].ActiveVersion)
+//@   ensures [C08 info.notfound] (allows(caller.Permissions, "info", name) && !has(db.kv.secrets, name)) ==> (info == nil && err != nil && (errIs(err, ErrNotFound) || sinkErr(unwrap1(err))))
+//@   at call info: assert [C14 info.locked] db.mu
+
+//@ func (*DB).Get(db, caller, name) (sv, err)
+//@   requires dbInv(db)
+//@   ensures [C02,C03,C14 get.inv] dbInv(db)
+//@   ensures [C01,C02 get.noeffect] noEffect(db)
+//@   ensures [C01 get.deny] !allows(caller.Permissions, "get", name) ==> (sv == nil && errIs(err, ErrAccessDenied))
+//@   ensures [C01,C06 get.deny-exact] (!allows(caller.Permissions, "get", name) && auditLog != old(auditLog)) ==> auditLog == snoc(old(auditLog), evC(caller, "get", name, 0, false))
+//@   ensures [C06 get.logged] sv != nil ==> auditLog == snoc(old(auditLog), evC(caller, "get", name, 0, true))
+//@   ensures [C06 get.trail] auditLog == old(auditLog) || auditLog == snoc(old(auditLog), evC(caller, "get", name, 0, allows(caller.Permissions, "get", name)))
+//@   ensures [C02,C18 get.model] err == nil ==> (sv != nil && has(db.kv.secrets, name) && sv.Version == db.kv.secrets[name].ActiveVersion &&
+//@        bytes(sv.Value) == db.kv.secrets[name].Versions[db.kv.secrets[name].ActiveVersion] && (fresh(sv.Value) || len(sv.Value) == 0))
+//@   ensures [C08 get.notfound] (allows(caller.Permissions, "get", name) && !has(db.kv.secrets, name)) ==> (sv == nil && err != nil && (errIs(err, ErrNotFound) || sinkErr(unwrap1(err))))
+//@   at call get: assert [C14 get.locked] db.mu
+
+//@ func (*DB).GetVersion(db, caller, name, version) (sv, err)
+//@   requires dbInv(db)
+//@   ensures [C02,C03,C14 getversion.inv] dbInv(db)
+//@   ensures [C01,C02 getversion.noeffect] noEffect(db)
+//@   ensures [C01 getversion.deny] !allows(caller.Permissions, "get", name) ==> (sv == nil && errIs(err, ErrAccessDenied))
+//@   ensures [C01,C06 getversion.deny-exact] (!allows(caller.Permissions, "get", name) && auditLog != old(auditLog)) ==> auditLog == snoc(old(auditLog), evC(caller, "get", name, version, false))
+//@   ensures [C06 getversion.logged] sv != nil ==> auditLog == snoc(old(auditLog), evC(caller, "get", name, version, true))
+//@   ensures [C06 getversion.trail] auditLog == old(auditLog) || auditLog == snoc(old(auditLog), evC(caller, "get", name, version, allows(caller.Permissions, "get", name)))
+//@   ensures [C02,C18 getversion.model] err == nil ==> (sv != nil && hasVersion(db.kv, name, version) && sv.Version == version &&
+//@        bytes(sv.Value) == db.kv.secrets[name].Versions[version] && (fresh(sv.Value) || len(sv.Value) == 0))
+//@   ensures [C08 getversion.notfound] (allows(caller.Permissions, "get", name) && !hasVersion(db.kv, name, version)) ==> (sv == nil && err != nil && (errIs(err, ErrNotFound) || sinkErr(unwrap1(err))))
+//@   at call getVersion: assert [C14 getversion.locked] db.mu
+
+//@ func (*DB).GetConditional(db, caller, name, oldVersion) (sv, err)
+//@   requires dbInv(db)
+//@   ensures [C02,C03,C14 getcond.inv] dbInv(db)
+//@   ensures [C01,C02 getcond.noeffect] noEffect(db)
+//@   ensures [C01 getcond.deny] !allows(caller.Permissions, "get", name) ==> (sv == nil && errIs(err, ErrAccessDenied) && !errIs(err, api.ErrValueNotChanged) && !errIs(err, ErrNotFound))
+//@   ensures [C01,C06 getcond.deny-exact] (!allows(caller.Permissions, "get", name) && auditLog != old(auditLog)) ==> auditLog == snoc(old(auditLog), evC(caller, "get", name, 0, false))
+//@   ensures [C06 getcond.logged] sv != nil ==> auditLog == snoc(old(auditLog), evC(caller, "get", name, 0, true))
+//@   ensures [C06 getcond.trail] auditLog == old(auditLog) || auditLog == snoc(old(auditLog), evC(caller, "get", name, 0, allows(caller.Permissions, "get", name)))
+//@   ensures [C06,C09 getcond.quiet-unchanged] errIs(err, api.ErrValueNotChanged) ==> (sv == nil && auditLog == old(auditLog))
+//@   ensures [C09 getcond.iff-unchanged] allows(caller.Permissions, "get", name) ==> (errIs(err, api.ErrValueNotChanged) == (has(db.kv.secrets, name) && db.kv.secrets[name].ActiveVersion == oldVersion))
+//@   ensures [C09 getcond.returns-active] err == nil ==> (sv != nil && has(db.kv.secrets, name) && sv.Version == db.kv.secrets[name].ActiveVersion && sv.Version != oldVersion &&
+//@        bytes(sv.Value) == db.kv.secrets[name].Versions[db.kv.secrets[name].ActiveVersion])
+//@   ensures [C09 getcond.zero-ignored] oldVersion == 0 ==> !errIs(err, api.ErrValueNotChanged)
+//@   ensures [C08,C09 getcond.notfound] (allows(caller.Permissions, "get", name) && !has(db.kv.secrets, name)) ==> (sv == nil && errIs(err, ErrNotFound))
+//@   at call get: assert [C14 getcond.locked] db.mu
+
+//@ func (*DB).Put(db, caller, name, value) (ver, err)
+//@   requires dbInv(db) && counterRoom(db, name)
+//@   ensures [C02,C03,C04,C14 put.inv] dbInv(db)
+//@   ensures [C01 put.noeffect-without-grant] !allows(caller.Permissions, "put", name) ==> (ver == 0 && err != nil && noEffect(db))
+//@   ensures [C01 put.deny] (!allows(caller.Permissions, "put", name) && name != "") ==> errIs(err, ErrAccessDenied)
+//@   ensures [C01,C06 put.deny-exact] (!allows(caller.Permissions, "put", name) && auditLog != old(auditLog)) ==> auditLog == snoc(old(auditLog), evC(caller, "put", name, 0, false))
+//@   ensures [C06 put.trail] auditLog == old(auditLog) || auditLog == snoc(old(auditLog), evC(caller, "put", name, 0, allows(caller.Permissions, "put", name)))
+//@   ensures [C06 put.failclosed] auditLog == old(auditLog) ==> (ver == 0 && err != nil && noEffect(db))
+//@   ensures [C02 put.name-validation] (name == "" || hasPrefix(name, "_internal/")) ==> (ver == 0 && err != nil && noEffect(db))
+//@   ensures [C02,C04 put.fail-nochange] err != nil ==> (ver == 0 && noEffect(db))
+//@   ensures [C02 put.others] othersUnchanged(db.kv, name)
+//@   ensures [C02,C18 put.readback] err == nil ==> (ver != 0 && hasVersion(db.kv, name, ver) && db.kv.secrets[name].Versions[ver] == bytes(value))
+//@   ensures [C02 put.create] (err == nil && !old(has(db.kv.secrets, name))) ==> (ver == 1 && db.kv.secrets[name].ActiveVersion == 1 && db.kv.secrets[name].LatestVersion == 1)
+//@   ensures [C02 put.dedupe] (err == nil && old(has(db.kv.secrets, name)) && old(dedupes(db.kv, name, value))) ==> (ver == old(db.kv.secrets[name].LatestVersion) && viewUnchanged(db.kv))
+//@   ensures [C02 put.fresh] (err == nil && old(has(db.kv.secrets, name)) && !old(dedupes(db.kv, name, value))) ==>
+//@        (ver == old(db.kv.secrets[name].LatestVersion) + 1 && db.kv.secrets[name].LatestVersion == ver && db.kv.secrets[name].ActiveVersion == old(db.kv.secrets[name].ActiveVersion))
+//@   ensures [C05 put.kek-unused] kekUses == old(kekUses)
+//@   at call put: assert [C14 put.locked] db.mu
+//@   at call put: assert [C06 put.logged-before-effect] auditLog == snoc(old(auditLog), evC(caller, "put", name, 0, true))
+
+//@ func (*DB).Activate(db, caller, name, version) (err)
+//@   requires dbInv(db)
+//@   ensures [C02,C03,C04,C14 activate.inv] dbInv(db)
+//@   ensures [C01 activate.noeffect-without-grant] !allows(caller.Permissions, "activate", name) ==> (err != nil && noEffect(db))
+//@   ensures [C01 activate.deny] (!allows(caller.Permissions, "activate", name) && name != "") ==> errIs(err, ErrAccessDenied)
+//@   ensures [C01,C06 activate.deny-exact] (!allows(caller.Permissions, "activate", name) && auditLog != old(auditLog)) ==> auditLog == snoc(old(auditLog), evC(caller, "activate", name, version, false))
+//@   ensures [C06 activate.trail] auditLog == old(auditLog) || auditLog == snoc(old(auditLog), evC(caller, "activate", name, version, allows(caller.Permissions, "activate", name)))
+//@   ensures [C06 activate.failclosed] auditLog == old(auditLog) ==> (err != nil && noEffect(db))
+//@   ensures [C02 activate.name-validation] (name == "" || hasPrefix(name, "_internal/")) ==> (err != nil && noEffect(db))
+//@   ensures [C02,C04 activate.fail-nochange] err != nil ==> noEffect(db)
+//@   ensures [C02 activate.others] othersUnchanged(db.kv, name)
+//@   ensures [C02 activate.ok] err == nil ==> (old(hasVersion(db.kv, name, version)) && version != 0 && db.kv.secrets[name].ActiveVersion == version &&
+//@        db.kv.secrets[name].LatestVersion == old(db.kv.secrets[name].LatestVersion) &&
+//@        (forall v api.SecretVersion :: has(db.kv.secrets[name].Versions, v) == old(has(db.kv.secrets[name].Versions, v)) &&
+//@            (has(db.kv.secrets[name].Versions, v) ==> db.kv.secrets[name].Versions[v] == old(db.kv.secrets[name].Versions[v]))))
+//@   ensures [C08 activate.notfound] (allows(caller.Permissions, "activate", name) && name != "" && !hasPrefix(name, "_internal/") && version != 0 && !old(hasVersion(db.kv, name, version))) ==> (errIs(err, ErrNotFound) || sinkErr(unwrap1(err)))
+//@   ensures [C05 activate.kek-unused] kekUses == old(kekUses)
+//@   at call setActive: assert [C14 activate.locked] db.mu
+//@   at call setActive: assert [C06 activate.logged-before-effect] auditLog == snoc(old(auditLog), evC(caller, "activate", name, version, true))
+
+//@ func (*DB).DeleteVersion(db, caller, name, version) (err)
+//@   requires dbInv(db)
+//@   ensures [C02,C03,C04,C14 deleteversion.inv] dbInv(db)
+//@   ensures [C01 deleteversion.deny] !allows(caller.Permissions, "delete", name) ==> (errIs(err, ErrAccessDenied) && noEffect(db))
+//@   ensures [C01,C06 deleteversion.deny-exact] (!allows(caller.Permissions, "delete", name) && auditLog != old(auditLog)) ==> auditLog == snoc(old(auditLog), evC(caller, "delete", name, version, false))
+//@   ensures [C06 deleteversion.trail] auditLog == old(auditLog) || auditLog == snoc(old(auditLog), evC(caller, "delete", name, version, allows(caller.Permissions, "delete", name)))
+//@   ensures [C06 deleteversion.failclosed] auditLog == old(auditLog) ==> (err != nil && noEffect(db))
+//@   ensures [C02,C04 deleteversion.fail-nochange] err != nil ==> noEffect(db)
+//@   ensures [C02 deleteversion.others] othersUnchanged(db.kv, name)
+//@   ensures [C02 deleteversion.ok] err == nil ==> (version != 0 && old(hasVersion(db.kv, name, version)) && version != old(db.kv.secrets[name].ActiveVersion) &&
+//@        !has(db.kv.secrets[name].Versions, version) && db.kv.secrets[name].ActiveVersion == old(db.kv.secrets[name].ActiveVersion) &&
+//@        db.kv.secrets[name].LatestVersion == old(db.kv.secrets[name].LatestVersion) &&
+//@        (forall v api.SecretVersion :: v != version ==> (has(db.kv.secrets[name].Versions, v) == old(has(db.kv.secrets[name].Versions, v)) &&
+//@            (has(db.kv.secrets[name].Versions, v) ==> db.kv.secrets[name].Versions[v] == old(db.kv.secrets[name].Versions[v])))))
+//@   ensures [C08 deleteversion.notfound] (allows(caller.Permissions, "delete", name) && !hasPrefix(name, "_internal/") && version != 0 &&
+//@        (!old(has(db.kv.secrets, name)) || (version != old(db.kv.secrets[name].ActiveVersion) && !old(hasVersion(db.kv, name, version))))) ==> (errIs(err, ErrNotFound) || sinkErr(unwrap1(err)))
+//@   ensures [C05 deleteversion.kek-unused] kekUses == old(kekUses)
+//@   at call deleteVersion: assert [C14 deleteversion.locked] db.mu
+//@   at call deleteVersion: assert [C06 deleteversion.logged-before-effect] auditLog == snoc(old(auditLog), evC(caller, "delete", name, version, true))
+
+//@ func (*DB).Delete(db, caller, name) (err)
+//@   requires dbInv(db)
+//@   ensures [C02,C03,C04,C14 delete.inv] dbInv(db)
+//@   ensures [C01 delete.deny] !allows(caller.Permissions, "delete", name) ==> (errIs(err, ErrAccessDenied) && noEffect(db))
+//@   ensures [C01,C06 delete.deny-exact] (!allows(caller.Permissions, "delete", name) && auditLog != old(auditLog)) ==> auditLog == snoc(old(auditLog), evC(caller, "delete", name, 0, false))
+//@   ensures [C06 delete.trail] auditLog == old(auditLog) || auditLog == snoc(old(auditLog), evC(caller, "delete", name, 0, allows(caller.Permissions, "delete", name)))
+//@   ensures [C06 delete.failclosed] auditLog == old(auditLog) ==> (err != nil && noEffect(db))
+//@   ensures [C02,C04 delete.fail-nochange] err != nil ==> noEffect(db)
+//@   ensures [C02 delete.others] othersUnchanged(db.kv, name)
+//@   ensures [C02 delete.ok] (err == nil && !hasPrefix(name, "_internal/")) ==> !has(db.kv.secrets, name)
+//@   ensures [C02,C08 delete.absent-ok] (allows(caller.Permissions, "delete", name) && !hasPrefix(name, "_internal/") && !old(has(db.kv.secrets, name))) ==> ((err == nil || sinkErr(unwrap1(err))) && noEffect(db))
+//@   ensures [C05 delete.kek-unused] kekUses == old(kekUses)
+//@   at call deleteSecret: assert [C14 delete.locked] db.mu
+//@   at call deleteSecret: assert [C06 delete.logged-before-effect] auditLog == snoc(old(auditLog), evC(caller, "delete", name, 0, true))
